@@ -10,14 +10,19 @@ from harness.mapgen import Arrangement, arr_request, match_branches, match_point
 ROUTES = ("direct", "network")
 
 
-def impl_topology(traces, area, t, route):
+def impl_topology(traces, area, t, route, zmask=None):
     """returns (nodes [( (x,y), class )], branches [(label, (x,y), (x,y))])"""
     import geopandas as gpd
+    from shapely.geometry import LineString
 
     from fractopo import Network
     from fractopo.branches_and_nodes import branches_and_nodes
 
-    tr = gpd.GeoDataFrame(geometry=to_float_lines(traces))
+    geoms = to_float_lines(traces)
+    if zmask:
+        # traces digitised with elevation values (2D and 2.5D layers concatenated): the topology is that of the plan view
+        geoms = [LineString([(x, y, 40.0 + 0.5 * j) for j, (x, y) in enumerate(g.coords)]) if z else g for g, z in zip(geoms, zmask)]
+    tr = gpd.GeoDataFrame(geometry=geoms)
     ar = gpd.GeoDataFrame(geometry=list(area) if isinstance(area, (list, tuple)) else [area])
     if route == "direct":
         b, n = branches_and_nodes(tr, ar, t, already_clipped=False)
@@ -48,10 +53,14 @@ def compare(ar: Arrangement, nodes, branches, t):
     return un_m, un_i, ub_m, ub_i
 
 
-def run_maps(ctx, maps, t, res, stream, routes=ROUTES, meta=None):
-    for (traces, area, kind, ar) in maps:
+def run_maps(ctx, maps, t, res, stream, routes=ROUTES, meta=None, zmasks=None):
+    for mi, (traces, area, kind, ar) in enumerate(maps):
         res.evaluations += 1
-        case = {"stream": stream, "t": t, "traces": lines(traces), "areas": area_rows(list(area) if isinstance(area, (list, tuple)) else [area]), "area_kind": kind, "meta": meta or {}}
+        # one map in five carries Z values on some (two in three of those) or all of its traces
+        zmask = zmasks[mi] if zmasks is not None else ([((i + mi) % 3 != 0) or mi % 15 == 4 for i in range(len(traces))] if mi % 5 == 4 else None)
+        case = {"stream": stream, "t": t, "traces": lines(traces), "areas": area_rows(list(area) if isinstance(area, (list, tuple)) else [area]), "area_kind": kind, "meta": meta or {}, "z": zmask}
+        if zmask:
+            res.distribution["maps_with_z_values"] = res.distribution.get("maps_with_z_values", 0) + 1
         cls = Counter(c for _, c in ar.nodes)
         for c, v in cls.items():
             res.distribution[f"node_{c}"] = res.distribution.get(f"node_{c}", 0) + v
@@ -72,7 +81,7 @@ def run_maps(ctx, maps, t, res, stream, routes=ROUTES, meta=None):
             res.samples.append({"case": case, "arrangement": {"nodes": dict(cls), "branches": len(ar.branches)}})
         for route in routes:
             try:
-                nodes, branches = impl_topology(traces, area, t, route)
+                nodes, branches = impl_topology(traces, area, t, route, zmask)
             except Exception as e:
                 res.disagreements.append(Disagreement(stream, dict(case, route=route), {"nodes": dict(cls)}, f"{type(e).__name__}: {str(e)[:200]}", True,
                                                       "extraction raised on a valid map"))
@@ -92,7 +101,7 @@ SCALES = [(F(1), F(0), 0.01), (F(1), F(0), 0.001), (F(1, 64), F(0), 0.0001), (F(
 
 def s01_arrangement(ctx):
     import_fractopo()
-    res = StreamResult("S01-arrangement", rule="random dyadic polylines with planted abutments, accepted only if the Lean oracle classifies the map as valid "
+    res = StreamResult("S01-arrangement", rule="random dyadic polylines with planted abutments (one map in five with Z values on some or all traces), accepted only if the Lean oracle classifies the map as valid "
                        "(margin 50 x snap); box / circle / concave / holed areas; scales 1/4096..64, offsets 0..1e7, thresholds 1e-6..0.5; both entry points; "
                        "non-trivial = distinct valid map with at least one X or Y node")
     rng = rng_for(ctx.seed, "S01")
@@ -174,5 +183,5 @@ def replay(ctx, stream, case):
         return None
     res = StreamResult("replay")
     routes = (case["route"],) if "route" in case else ROUTES
-    run_maps(ctx, [(traces, area, case.get("area_kind"), ar)], t, res, stream, routes=routes)
+    run_maps(ctx, [(traces, area, case.get("area_kind"), ar)], t, res, stream, routes=routes, zmasks=[case.get("z")])
     return res.disagreements[0] if res.disagreements else None
